@@ -62,7 +62,8 @@ def run_case(ctx, g, rng):
 
     api, S = ctx.api, probe.S
     d = rng.choice([":", ":", "/", "/", "::", "_", "."])
-    names = [p for p in rng.sample(PREFIXES, k=len(PREFIXES)) if d not in p]
+    pool_ = PREFIXES + (["ncbi:gene", "obo:go"] if d != ":" and d != "::" else [])
+    names = [p for p in rng.sample(pool_, k=len(pool_)) if d not in p]
     ups = rng.sample(UBASE, k=len(UBASE))
     recs = []
     for _ in range(rng.randint(1, 3)):
@@ -94,7 +95,8 @@ def run_case(ctx, g, rng):
         if rng.random() < 0.6:
             # a second resolver, for another converter, mounted on the same apps under /alt: the first one still
             # answers for its own converter
-            other = api.Converter.from_prefix_map({"zzalt": "http://zz.alt/", recs[0].prefix: "http://zz.alt/shadow_"}, delimiter=d)
+            d2 = rng.choice([x for x in (":", "/", "_", "::") if x not in recs[0].prefix and (x != d or rng.random() < 0.3)] or [d])
+            other = api.Converter.from_prefix_map({"zzalt": "http://zz.alt/", recs[0].prefix: "http://zz.alt/shadow_"}, delimiter=d2)
             fapp_.register_blueprint(get_flask_blueprint(other), url_prefix="/alt", name="alt")
             aapp_.include_router(get_fastapi_router(other), prefix="/alt")
             S.counters["wl:second-resolver-mounted-on-the-same-app"] += 1
